@@ -74,6 +74,9 @@ def oracle(ctx, kind, p):
                     check_role(ctx, name, m, rm, b, k, r, rin, chain)
                     ctx.enumerated(nontrivial=k >= 1 or rm.defines(b))
                     ctx.count('roles')
+                    if ctx.want_sample() and k == 3 and rm.defines(b) and name != 'default':
+                        ctx.sample({'model': name, 'role': rin, 'canonicalize_role': m.canonicalize_role(rin),
+                                    'is_role_inverted': m.is_role_inverted(r), 'has_role': m.has_role(r)})
         ctx.exhaustive['role-grid(models x bases x k<=4 x colon)'] = ctx.exhaustive.get(
             'role-grid(models x bases x k<=4 x colon)', 0) + 1
     elif kind == 'role':
